@@ -67,8 +67,8 @@ pub static C01: PropDef = PropDef {
            distinct by FNV digest of the canonical text; non-trivial = the case removed a present key AND reached at \
            least one of {tombstone, in-place rehash, resize, small-table fix-up, probe through the mirror bytes}",
     level: "exploration",
-    cases_quick: 24_000,
-    cases_thorough: 400_000,
+    cases_quick: 60_000,
+    cases_thorough: 1_500_000,
     strategy: c01_strategy,
     eval: eval_plain,
     nontrivial: c01_nontrivial,
@@ -230,7 +230,7 @@ pub static C04: PropDef = PropDef {
            non-trivial = at least one injected panic unwound out of the operation AND it fired during a growth into a new \
            allocation, under in-place-rehash conditions, or in a Clone/Drop/closure/Into/iterator callback",
     level: "fault_enumeration",
-    cases_quick: 1600,
+    cases_quick: 5000,
     cases_thorough: 30_000,
     strategy: c04_strategy,
     eval: eval_c04,
@@ -294,8 +294,8 @@ pub static C06: PropDef = PropDef {
            remove-then-reinsert through the returned VacantEntry, OR called entry() at growth_left == 0, OR ran \
            iter_hash over a probe longer than one group",
     level: "exploration",
-    cases_quick: 24_000,
-    cases_thorough: 400_000,
+    cases_quick: 60_000,
+    cases_thorough: 1_500_000,
     strategy: c06_strategy,
     eval: eval_plain,
     nontrivial: c06_nontrivial,
@@ -388,8 +388,8 @@ pub static C03: PropDef = PropDef {
            non-trivial = an owning iterator / drain / extract_if was cut strictly inside, OR clone_from hit a target \
            with different bucket count or tombstones, OR an in-place rehash moved tracked elements",
     level: "exploration",
-    cases_quick: 24_000,
-    cases_thorough: 400_000,
+    cases_quick: 60_000,
+    cases_thorough: 1_500_000,
     strategy: c03_strategy,
     eval: eval_plain,
     nontrivial: c03_nontrivial,
@@ -473,8 +473,8 @@ pub static C05: PropDef = PropDef {
            safety subset is judged (structure, allocator, element ledger, len == yielded count, termination); \
            non-trivial = a growth, shrink or in-place rehash happened while answers were inconsistent",
     level: "exploration",
-    cases_quick: 24_000,
-    cases_thorough: 400_000,
+    cases_quick: 60_000,
+    cases_thorough: 1_500_000,
     strategy: c05_strategy,
     eval: eval_plain,
     nontrivial: c05_nontrivial,
@@ -540,8 +540,8 @@ pub static C09: PropDef = PropDef {
            to exhaustion / fold / for_each / clone-and-run-both / count / drop); size_hint and len checked at every \
            step; non-trivial = 0 < p < len with continuation fold or clone, or an owning iterator cut strictly inside",
     level: "exploration",
-    cases_quick: 24_000,
-    cases_thorough: 400_000,
+    cases_quick: 60_000,
+    cases_thorough: 1_500_000,
     strategy: c09_strategy,
     eval: eval_plain,
     nontrivial: c09_nontrivial,
@@ -598,8 +598,8 @@ pub static C10: PropDef = PropDef {
            x early-drop point, for HashMap (2/3) and HashTable (1/3); non-trivial = extract_if with a subset neither \
            empty nor full dropped strictly inside its selection, or drain dropped strictly inside",
     level: "exploration",
-    cases_quick: 24_000,
-    cases_thorough: 400_000,
+    cases_quick: 60_000,
+    cases_thorough: 1_500_000,
     strategy: c10_strategy,
     eval: eval_plain,
     nontrivial: c10_nontrivial,
@@ -653,8 +653,8 @@ pub static C11: PropDef = PropDef {
            non-trivial = clone_from into a target with a different bucket count or with tombstones, or == evaluated on \
            equal non-empty contents held under different hash plans",
     level: "exploration",
-    cases_quick: 24_000,
-    cases_thorough: 400_000,
+    cases_quick: 60_000,
+    cases_thorough: 1_500_000,
     strategy: c11_strategy,
     eval: eval_plain,
     nontrivial: c11_nontrivial,
@@ -704,7 +704,7 @@ pub static C13: PropDef = PropDef {
            cannot consume the last one, per-operation watchdog; non-trivial = at least 20 x n basic operations and \
            at least one in-place rehash or tombstone reuse",
     level: "exploration",
-    cases_quick: 3_200,
+    cases_quick: 16_000,
     cases_thorough: 40_000,
     strategy: c13_strategy,
     eval: eval_plain,
@@ -761,8 +761,8 @@ pub static C14: PropDef = PropDef {
            get/insert/remove on the model; non-trivial = an entry was created at growth_left == 0 or the key's probe \
            window held a tombstone. HashSet::entry is checked by C07.",
     level: "exploration",
-    cases_quick: 24_000,
-    cases_thorough: 400_000,
+    cases_quick: 60_000,
+    cases_thorough: 1_500_000,
     strategy: c14_strategy,
     eval: eval_plain,
     nontrivial: c14_nontrivial,
@@ -814,8 +814,8 @@ pub static C15: PropDef = PropDef {
            several entries); non-zero-sized elements; non-trivial = N >= 2 with at least two present keys, or a tuple \
            naming the same present entry twice",
     level: "exploration",
-    cases_quick: 24_000,
-    cases_thorough: 400_000,
+    cases_quick: 60_000,
+    cases_thorough: 1_500_000,
     strategy: c15_strategy,
     eval: eval_plain,
     nontrivial: c15_nontrivial,
@@ -879,8 +879,8 @@ pub static C07: PropDef = PropDef {
            non-equivalent value, which must panic)/remove/entry; non-trivial = a binary operation was evaluated on \
            two non-empty sets of which neither is a subset of the other",
     level: "exploration",
-    cases_quick: 24_000,
-    cases_thorough: 400_000,
+    cases_quick: 60_000,
+    cases_thorough: 1_500_000,
     strategy: c07_strategy,
     eval: eval_plain,
     nontrivial: c07_nontrivial,
@@ -939,8 +939,8 @@ pub static C02: PropDef = PropDef {
            self-check, structure validator V1-V4, debug assertions and std unsafe-precondition checks. Non-trivial = \
            (a non-default layout, or a forget / strictly-inside early drop happened) and the table left the singleton state",
     level: "exploration",
-    cases_quick: 24_000,
-    cases_thorough: 400_000,
+    cases_quick: 60_000,
+    cases_thorough: 1_500_000,
     strategy: c02_strategy,
     eval: eval_plain,
     nontrivial: c02_nontrivial,
@@ -1016,8 +1016,8 @@ pub static C08: PropDef = PropDef {
            inequalities of the statement incl. comparison with a fresh with_capacity(max(len, m)). Non-trivial = the \
            state had a tombstone or len()==capacity(), or an operation sat on a capacity boundary",
     level: "exploration",
-    cases_quick: 24_000,
-    cases_thorough: 400_000,
+    cases_quick: 60_000,
+    cases_thorough: 1_500_000,
     strategy: c08_strategy,
     eval: eval_plain,
     nontrivial: c08_nontrivial,
@@ -1064,8 +1064,8 @@ pub static C12: PropDef = PropDef {
            capacity, block address and size are identical to the snapshot, no element event, no block left live. \
            Non-trivial = an Err on a non-empty state or an `additional` on an arithmetic boundary",
     level: "exploration",
-    cases_quick: 24_000,
-    cases_thorough: 400_000,
+    cases_quick: 60_000,
+    cases_thorough: 1_500_000,
     strategy: c12_strategy,
     eval: eval_plain,
     nontrivial: c12_nontrivial,
@@ -1221,7 +1221,7 @@ pub static C18: PropDef = PropDef {
            tags that matter (all 128 thorough) plus seeded random groups; bytewise oracle, exact for SSE2, documented \
            superset for the portable match_tag; BitMask queries in element units; non-trivial = group of valid control bytes",
     level: "exploration",
-    cases_quick: 12_000,
+    cases_quick: 30_000,
     cases_thorough: 200_000,
     strategy: c18_strategy,
     eval: eval_c18,
@@ -1254,8 +1254,8 @@ pub static C20: PropDef = PropDef {
            built element dropped exactly once and no block left, bytes reserved before the first element is read <= block \
            of with_capacity(4096). Non-trivial = duplicate keys, a claim above 4096, or an injected error inside the stream",
     level: "exploration",
-    cases_quick: 16_000,
-    cases_thorough: 300_000,
+    cases_quick: 200_000,
+    cases_thorough: 3_000_000,
     strategy: c20_strategy,
     eval: eval_plain,
     nontrivial: c20_nontrivial,
